@@ -287,25 +287,25 @@ def sweep_cases(rng, fam, mode, N):
             iv = rb(rng, ivlen(mode, bs))
             c = Case(fam, mode, bs, w, key, iv, cls_sweep=1)
             x = rb(rng, n * mbs)
-            c.ops.append(f"blocks {hx(x)}" if n % 3 else f"blocksb {hx(x)} {hx(rb_nz(rng, len(x)))}")
+            c.ops.append(f"blocks {hx(x)}" if rng.random() < 0.65 else f"blocksb {hx(x)} {hx(rb_nz(rng, len(x)))}")
             c.ops += ["ivstate", f"block {hx(rb(rng, mbs))}"]
         elif fam == "buf":
             c = Case(fam, mode, bs, w, key, rb(rng, bs), cls_sweep=1)
-            k0 = rng.randrange(0, bs) if n % 2 else 0
-            c.ops += [f"data {hx(rb(rng, k0))}", f"data {hx(rb(rng, n * bs + (rng.randrange(0, bs) if n % 3 == 0 else 0)))}", f"data {hx(rb(rng, bs + 1))}"]
+            k0 = rng.randrange(0, bs) if rng.random() < 0.5 else 0
+            c.ops += [f"data {hx(rb(rng, k0))}", f"data {hx(rb(rng, n * bs + (rng.randrange(0, bs) if rng.random() < 0.35 else 0)))}", f"data {hx(rb(rng, bs + 1))}"]
         elif fam == "stream":
             iv, cls = stream_iv(rng, mode, bs, key)
             c = Case(fam, mode, bs, w, key, iv, cls_sweep=1)
-            k0 = rng.randrange(0, bs) if n % 2 else 0
-            c.ops += [f"apply {hx(rb(rng, k0))}", f"apply {hx(rb(rng, n * bs + (rng.randrange(0, bs) if n % 3 == 0 else 0)))}", "corestate", f"apply {hx(rb(rng, bs + 1))}"]
+            k0 = rng.randrange(0, bs) if rng.random() < 0.5 else 0
+            c.ops += [f"apply {hx(rb(rng, k0))}", f"apply {hx(rb(rng, n * bs + (rng.randrange(0, bs) if rng.random() < 0.35 else 0)))}", "corestate", f"apply {hx(rb(rng, bs + 1))}"]
         elif fam == "core":
             iv, cls = stream_iv(rng, mode, bs, key)
             c = Case(fam, mode, bs, w, key, iv, cls_sweep=1)
-            c.ops += [f"applyblocks {hx(rb(rng, n * bs))}" if n % 2 else f"ksblocks {n}", "ivstate", "ksblock"]
+            c.ops += [f"applyblocks {hx(rb(rng, n * bs))}" if rng.random() < 0.5 else f"ksblocks {n}", "ivstate", "ksblock"]
         else:   # cts
             c = Case(fam, mode, bs, w, key, rb(rng, ivlen(mode, bs)), cls_sweep=1)
-            L = n * bs + (rng.randrange(0, bs) if n % 2 else 0)
-            op = ["enc", "dec", "encb", "decb"][n % 4]
+            L = n * bs + (rng.randrange(0, bs) if rng.random() < 0.5 else 0)
+            op = rng.choice(["enc", "dec", "encb", "decb"])
             c.ops.append(f"{op} {hx(rb(rng, L))}" + (f" {hx(rb_nz(rng, L))}" if op.endswith("b") else ""))
         out.append(c)
     return out
